@@ -337,6 +337,52 @@ def show_view(v, S, V, rownum):
         return kind_of(v) + ";!" + exc_name(e) + ";" + show_sigs(v)
 
 
+ALL_TMP = []          # every temporary directory of the current case, in creation order
+LOCNUM = {"dirs": [], "md5s": []}
+
+
+def loc_reset():
+    LOCNUM["dirs"], LOCNUM["md5s"] = [], []
+
+
+def loc_dir(x):
+    for td in ALL_TMP:
+        if x == td or x.startswith(td + os.sep):
+            return td
+    return None
+
+
+def loc_note(x):
+    """first pass of a dump: number temporary directories / md5-named members by first appearance"""
+    if not isinstance(x, str):
+        return
+    td = loc_dir(x)
+    if td is not None:
+        if td not in LOCNUM["dirs"]:
+            LOCNUM["dirs"].append(td)
+    elif re.match(r"^signatures/.*\.sig(\.gz)?$", x):
+        if x not in LOCNUM["md5s"]:
+            LOCNUM["md5s"].append(x)
+
+
+def show_loc(x):
+    """a location up to the names of temporary directories: `T<k>[/<i>.sig]`, `M<k>` for `signatures/<md5>.sig.gz`"""
+    if x is None:
+        return "-"
+    x = str(x)
+    td = loc_dir(x)
+    if td is not None:
+        k = LOCNUM["dirs"].index(td) if td in LOCNUM["dirs"] else "?"
+        base = os.path.basename(x)
+        return f"T{k}/{int(base[:-4])}.sig" if re.match(r"^\d+\.sig$", base) else f"T{k}"
+    if re.match(r"^signatures/.*\.sig(\.gz)?$", x):
+        return f"M{LOCNUM['md5s'].index(x)}" if x in LOCNUM["md5s"] else "M?"
+    m = re.match(r"^(.*/)?(\d+)\.sig$", x)
+    if m:
+        return (m.group(1) or "") + str(int(m.group(2))) + ".sig"
+    return x
+
+
 def show_view_(v, S, V, rownum):
     k = kind_of(v)
     if k == "linear":
@@ -356,15 +402,16 @@ def show_view_(v, S, V, rownum):
         for row in v.manifest.rows:
             sg = row.get("signature")
             items.append(f"R{rownum[id(row)]}({len(row)}.{dash(row['name'])}.{dash(row['filename'])}."
-                         f"{row['n_hashes']}.{int(bool(row['with_abundance']))}.{'-' if sg is None else sref(S, sg)})")
+                         f"{row['n_hashes']}.{int(bool(row['with_abundance']))}.{'-' if sg is None else sref(S, sg)}."
+                         f"{show_loc(row['internal_location'])})")
         own = "rows=" + ",".join(items)
         if k == "multi":
-            own = f"par={dash(v.parent)}:{int(bool(v.prepend_location))};" + own
+            own = f"pre={int(bool(v.prepend_location))};" + own
     elif k == "lca":
         own = f"n={len(v)};p=" + show_picks(v.picklists)
     else:
         own = "?"
-    return k + ";" + own + ";" + show_answers(v, S) + ";" + show_sigs(v)
+    return k + ";loc=" + show_loc(v.location) + ";" + own + ";" + show_answers(v, S) + ";" + show_sigs(v)
 
 
 def probe_of(S):
@@ -409,10 +456,15 @@ def show_answers(v, S):
             elif kind_of(v) == "sbt" and any(leaf.name != leaf.data.md5sum() for leaf in v.leaves()):
                 found = "~"          # a referenced member got other hashes after insertion: the inner nodes are stale (C15.4)
             else:
-                found = "+".join(sorted(dash(r.signature.name) for r in v.search(q, threshold=0.0, do_containment=True))) or "."
+                found = "+".join(sorted(dash(r.signature.name) + "@" + show_loc(r.location)
+                                        for r in v.search(q, threshold=0.0, do_containment=True))) or "."
         except Exception as e:  # noqa: BLE001
             found = "!" + exc_name(e)
-    return f"n={n};in={member};f={found}"
+    try:
+        locs = "+".join(sorted(dash(x.name) + "@" + show_loc(loc) for x, loc in v.signatures_with_location())) or "."
+    except Exception as e:  # noqa: BLE001
+        locs = "!" + exc_name(e)
+    return f"n={n};in={member};f={found};L={locs}"
 
 
 def world(T, S, V):
@@ -423,11 +475,17 @@ def world(T, S, V):
         cls = min(g for g in S if S[g] is S[h])
         out.append(f"s{h}@{cls}={show_sig(S[h])}")
     rownum = {}
+    loc_reset()
     for h in sorted(V):
+        try:
+            loc_note(V[h].location)
+        except Exception:  # noqa: BLE001
+            pass
         m = getattr(V[h], "manifest", None)
         if m is not None and kind_of(V[h]) in ("zipm", "multi", "standalone"):
             for row in m.rows:
                 rownum.setdefault(id(row), len(rownum))
+                loc_note(row.get("internal_location"))
     for h in sorted(V):
         cls = min(g for g in V if V[g] is V[h])
         out.append(f"v{h}@{cls}={show_view(V[h], S, V, rownum)}")
@@ -446,10 +504,12 @@ def new_tmp():
     base = os.environ.get("VERIF_TMP") or None
     td = tempfile.mkdtemp(prefix="own_", dir=base)
     TMPDIRS.append(td)
+    ALL_TMP.append(td)
     return td
 
 
 def drop_tmp():
+    del ALL_TMP[:]
     while TMPDIRS:
         shutil.rmtree(TMPDIRS.pop(), ignore_errors=True)
 
@@ -595,6 +655,26 @@ def view_ro(name, v, qs):
         return sorted(map(str, pl.pickset))
     if q is None:
         raise UnknownOp("query")
+    if name == "cgather":
+        # CounterGather built FROM the view (counter_gather = prefetch + add), driven by hand, then the source view again
+        before = observe(v, q)
+        cg = v.counter_gather(q, 0)
+        cur = q.minhash.flatten() if q.minhash.track_abundance else q.minhash
+        steps = []
+        for _ in range(4):
+            res = cg.peek(cur)
+            if not res:
+                break
+            sr, inter = res
+            steps.append((sr.score, sig_digest(sr.signature), show_loc(sr.location), len(inter)))
+            cg.consume(inter)
+            cur = cur.to_mutable()
+            cur.remove_many(inter)
+        held = sorted(sig_digest(x) for x in cg.signatures())
+        for _ in range(2):
+            if observe(v, q) != before:
+                raise ViewChanged("after counter_gather / peek / consume")
+        return steps, held
     if name == "interleave":
         # a search generator that is only partly consumed must not disturb another search on the same collection
         # (nor on the collection it was selected from): hidden cursor / cache state
@@ -638,14 +718,14 @@ SYNTAX = {
     "ssetstate": "hhnn", "sintofrozen": "h", "stomut": "hh", "stofrozen": "hh", "scopy": "hh", "spickle": "hh",
     "supdflat": "hh", "supdname": "hhn", "sgatherinit": "hh", "scg": "hh*", "sro": "w*", "vlinear": "h*",
     "vlazy": "hh", "vzip": "hb*", "vstandalone": "h*", "vmulti": "h*", "vsbt": "h*", "vlca": "h*", "vinsert": "hh",
-    "vsel": "hhK", "vselpick": "hhN", "vget": "hhh", "vro": "wh*", "vsbtload": "hhh*", "vsqlite": "h*", "vlcaload": "hh*", "vmf": "whh*", "vzipg": "hbh*",
+    "vsel": "hhK", "vselpick": "hhN", "vget": "hhh", "vro": "wh*", "vsbtload": "hhh*", "vsqlite": "h*", "vlcaload": "hh*", "vmf": "whh*", "vzipg": "hbh*", "vmultiof": "hbX", "vfrom": "hhh", "vstandof": "hh", "vmpath": "hhh",
 }
 
 
 def check_syntax(op, a):
     """same well-formedness as the model's parser: anything else is `bad-op` on both sides"""
     pat = SYNTAX[op]
-    fixed = pat.rstrip("*KN")
+    fixed = pat.rstrip("*KNX")
     tail = pat[len(fixed):]
     if len(a) < len(fixed) or (not tail and len(a) != len(fixed)):
         raise UnknownOp("arity")
@@ -689,10 +769,10 @@ def inner_state(v):
     return None
 
 
-def observe(v, q):
+def observe(v, q, inner=True):
     """what a collection answers: its signatures, its size, and a containment search with q (when q is a flat scaled query)"""
     sigs = sorted(sig_digest(x) for x in v.signatures())
-    n = (len(v), inner_state(v))
+    n = (len(v), inner_state(v) if inner else None)
     found = None
     if q is not None and not q.minhash.track_abundance and q.minhash.scaled:
         try:
@@ -743,7 +823,47 @@ def view_save(name, v, qs):
     return before
 
 
-MF_OPS = ("add", "eq", "in", "select", "filter", "misc")
+MF_OPS = ("add", "eq", "in", "select", "filter", "misc", "combine", "wrap", "getmf")
+
+
+def two_views_ro(name, va, vb, sigs):
+    """read-only calls that take the COLLECTIONS themselves as input; both must answer the same afterwards (twice)"""
+    q = sigs[0] if sigs else None
+    # (combine: answers only.  The combined tree holds SHALLOW copies of the other tree's nodes, so a later insert lowers
+    #  `min_n_below` / adds Bloom bits in nodes both trees share -- a conservative change of pruning data, observation C15.6)
+    inner = name != "combine"
+    before = (observe(va, q, inner), observe(vb, q, inner))
+    if name == "combine":
+        # SBT.combine(other): merges `other` into a FRESH tree built from va's signatures; vb (and va) are only read
+        t = create_sbt_index()
+        for x in va.signatures():
+            t.insert(x)
+        t.combine(vb)
+        res = sorted(sig_digest(x) for x in t.signatures())
+        for x in sigs:
+            t.insert(x)            # growing the combined tree afterwards must not reach into vb's nodes
+        res = (res, sorted(sig_digest(x) for x in t.signatures()))
+    elif name == "wrap":
+        # index objects constructed AROUND a live manifest object
+        from sourmash.sourmash_args import get_manifest
+        m = va.manifest
+        w1 = StandaloneManifestIndex(m, "wrapped", prefix="")
+        w2 = w1.select(abund=True)
+        res = [len(w1), len(w2), mf_rows(w2.manifest), mf_rows(CollectionManifest.load_from_manifest(m))]
+        if isinstance(va, ZipFileLinearIndex):
+            z = ZipFileLinearIndex(va.storage, manifest=m, use_manifest=True)
+            res.append(sorted(sig_digest(x) for x in z.select(ksize=21).signatures()))
+    elif name == "getmf":
+        from sourmash.sourmash_args import get_manifest
+        res = [mf_rows(get_manifest(x, require=False, rebuild=rb)) if get_manifest(x, require=False, rebuild=rb) is not None else None
+               for x in (va, vb) for rb in (False, True)]
+    else:
+        raise UnknownOp(name)
+    for _ in range(2):
+        if (observe(va, q, inner), observe(vb, q, inner)) != before:
+            raise ViewChanged(name)
+    return res
+
 
 
 def row_key(row):
@@ -786,8 +906,27 @@ def manifest_ro(name, a, b, sigs):
         a.write_to_csv(fp, write_header=True)
         a.write_to_csv(fp2, write_header=True)
         return (sorted(map(str, a.to_picklist().pickset)), list(map(str, a.locations())), len(a), bool(a),
+                mf_rows(type(a).load_from_manifest(a)) if isinstance(a, CollectionManifest) else None,
                 mf_rows(a), [row_key(r) for r in a.rows], fp.getvalue(), fp2.getvalue() == fp.getvalue())
     raise UnknownOp(name)
+
+
+ORDERED = ("linear", "lazy", "multi", "zipnm", "zipm", "standalone", "sqlite")
+
+
+def bound(S, x):
+    return any(x is y for y in S.values())
+
+
+def has_private(v, S):
+    """the collection holds signature objects that are not in the table (private copies read from disk)"""
+    if isinstance(v, LinearIndex):
+        return any(not bound(S, x) for x in v._signatures)
+    if isinstance(v, MultiIndex):
+        return any(r.get("signature") is not None and not bound(S, r["signature"]) for r in v.manifest.rows)
+    if isinstance(v, LazyLinearIndex):
+        return has_private(v.db, S)
+    return False
 
 
 def obj_op(op, a, T, S, V):
@@ -862,7 +1001,7 @@ def obj_op(op, a, T, S, V):
         V[i(a[0])] = LinearIndex([S[i(h)] for h in a[1:]])
     elif op == "vlazy":
         db = V[i(a[1])]
-        if not isinstance(db, LinearIndex):
+        if not isinstance(db, LinearIndex) or not all(any(x is y for y in S.values()) for x in db._signatures):
             raise UnknownOp("domain")
         V[i(a[0])] = LazyLinearIndex(db)
     elif op in ("vzip", "vstandalone"):
@@ -894,7 +1033,7 @@ def obj_op(op, a, T, S, V):
             V[i(a[0])] = StandaloneManifestIndex(mf, os.path.join(td, "mf.csv"), prefix="")
     elif op == "vmulti":
         idxs = [V[i(h)] for h in a[1:]]
-        if not all(isinstance(x, LinearIndex) for x in idxs):
+        if not all(isinstance(x, LinearIndex) and not has_private(x, S) for x in idxs):
             raise UnknownOp("domain")
         V[i(a[0])] = MultiIndex.load(idxs, [f"src{n}" for n in range(len(idxs))], parent="p", prepend_location=bool(i(a[0]) % 2))
     elif op in ("vsbt", "vlca"):
@@ -940,7 +1079,86 @@ def obj_op(op, a, T, S, V):
         sigs = [S[i(h)] for h in a[3:]]
         if a[0] not in MF_OPS:
             raise UnknownOp(a[0])
+        if a[0] in ("combine", "wrap", "getmf"):
+            return twice(lambda: two_views_ro(a[0], va, vb, sigs))
         return twice(lambda: manifest_ro(a[0], va.manifest, vb.manifest, sigs))
+    elif op == "vmultiof":
+        if a[1] not in ("0", "1"):
+            raise UnknownOp("flag")
+        ins = []
+        for t in a[2:]:
+            if t.count(":") != 1:
+                raise UnknownOp("input")
+            hv, lab = t.split(":")
+            if not hv.isdigit():
+                raise UnknownOp("input")
+            ins.append((V[i(hv)], name_tok(lab) or None))
+        if not all(kind_of(x) in ORDERED for x, _ in ins):
+            raise UnknownOp("domain")
+        V[i(a[0])] = MultiIndex.load([x for x, _ in ins], [lab for _, lab in ins], parent="p", prepend_location=bool(i(a[1])))
+    elif op == "vfrom":
+        v, kind = V[i(a[2])], i(a[1])
+        if kind_of(v) not in ORDERED or kind > 2:
+            raise UnknownOp("domain")
+        members = list(v.signatures())
+        nb = sum(1 for x in members if bound(S, x))
+        if kind == 0:
+            if 0 < nb < len(members):
+                raise UnknownOp("domain")
+            V[i(a[0])] = LinearIndex(members)
+        else:
+            if not members or not uniform_scaled(members[0].minhash._max_hash, members):
+                raise UnknownOp("domain")
+            if kind == 1:
+                if nb != len(members):
+                    raise UnknownOp("domain")
+                t = create_sbt_index()
+                for x in members:
+                    t.insert(x)
+                t._own_scaled = members[0].minhash.scaled
+                V[i(a[0])] = t
+            else:
+                names = [x.name for x in members]
+                if not all(names) or len(set(names)) != len(names):
+                    raise UnknownOp("domain")
+                db = LCA_Database(21, members[0].minhash.scaled, "DNA")
+                for x in members:
+                    db.insert(x)
+                V[i(a[0])] = db
+    elif op == "vstandof":
+        v = V[i(a[1])]
+        if kind_of(v) != "standalone":
+            raise UnknownOp("domain")
+        td = new_tmp()
+        csvp = os.path.join(td, "mf.csv")
+        v.manifest.write_to_filename(csvp)
+        V[i(a[0])] = StandaloneManifestIndex.load(csvp)
+    elif op == "vmpath":
+        v, mode = V[i(a[2])], i(a[1])
+        if kind_of(v) not in ORDERED or mode > 2:
+            raise UnknownOp("domain")
+        sigs = list(v.signatures())
+        if not sigs:
+            raise UnknownOp("domain")
+        td = new_tmp()
+        fpath, dpath = os.path.join(td, "all.sig"), os.path.join(td, "d")
+        if mode in (0, 2):
+            with open(fpath, "w") as fp:
+                sigmod.save_signatures_to_json(sigs, fp)
+        if mode in (1, 2):
+            os.mkdir(dpath)
+            for n, x in enumerate(sigs):
+                with open(os.path.join(dpath, f"{n:04d}.sig"), "w") as fp:    # zero-padded: directory traversal is lexicographic
+                    sigmod.save_signatures_to_json([x], fp)
+        if mode == 0:
+            V[i(a[0])] = MultiIndex.load_from_path(fpath)
+        elif mode == 1:
+            V[i(a[0])] = MultiIndex.load_from_directory(dpath)
+        else:
+            lst = os.path.join(td, "list.txt")
+            with open(lst, "w") as fp:
+                fp.write(dpath + "\n" + fpath + "\n")
+            V[i(a[0])] = MultiIndex.load_from_pathlist(lst)
     elif op == "vsbtload":
         sigs = [S[i(h)] for h in a[3:]]
         if not sigs or i(a[1]) > 1 or not uniform_scaled(sigs[0].minhash._max_hash, sigs) \
@@ -1010,6 +1228,8 @@ def obj_op(op, a, T, S, V):
         v = V[i(a[1])]
         if kind_of(v) in ("sbt", "lca", "sbtdisk", "lcasql"):
             raise UnknownOp("domain")
+        if kind_of(v) in ("linear", "multi", "lazy") and has_private(v, S):
+            raise UnknownOp("domain")
         got = list(v.signatures())
         if i(a[2]) >= len(got):
             return "err IndexError"
@@ -1019,7 +1239,7 @@ def obj_op(op, a, T, S, V):
         qs = [S[i(h)] for h in a[2:]]
         if a[0] in SAVES:
             return twice(lambda: view_save(a[0], v, qs))
-        if a[0] not in ("sigs", "locs", "manifest", "picklist", "search", "searchc", "prefetch", "best", "gather", "gatheri", "interleave"):
+        if a[0] not in ("sigs", "locs", "manifest", "picklist", "search", "searchc", "prefetch", "best", "gather", "gatheri", "interleave", "cgather"):
             raise UnknownOp(a[0])
         return twice(lambda: view_ro(a[0], v, qs))
     else:
@@ -1030,7 +1250,7 @@ def obj_op(op, a, T, S, V):
 OBJ_OPS = {"snew", "smh", "ssetmh", "sname", "sfile", "saddseq", "saddprot", "ssetstate", "sintofrozen", "stomut",
            "stofrozen", "scopy", "spickle", "supdflat", "supdname", "sgatherinit", "scg", "sro", "vlinear", "vlazy",
            "vzip", "vstandalone", "vmulti", "vsbt", "vlca", "vinsert", "vsel", "vselpick", "vget", "vro",
-           "vsbtload", "vsqlite", "vlcaload", "vmf", "vzipg"}
+           "vsbtload", "vsqlite", "vlcaload", "vmf", "vzipg", "vmultiof", "vfrom", "vstandof", "vmpath"}
 
 
 def main():
